@@ -71,7 +71,7 @@ func (s *Srv) WaitServe() error {
 			return nil
 		case <-deadline:
 			return ErrWatchdog
-		case <-time.After(20 * time.Millisecond):
+		case <-time.After(200 * time.Microsecond):
 		}
 	}
 }
